@@ -16,6 +16,7 @@ THEOREMS = ['Tbox.C13.' + t for t in [
     'C13_telnet_resumable', 'C13_telnet_in_bounds', 'C13_telnet_legacy_counterexample',
     'C13_split_unbalanced', 'C13_split_words', 'C13_split_quoted', 'C13_split_roundtrip',
     'C13_delete_in_handler',
+    'C13_tree_in_handler', 'C13_tree_legacy_counterexample', 'C13_no_stale_tree',
     'C13_sock_stream_conserved', 'C13_sock_close_rule', 'C13_sock_eintr_as_found',
     'C13_wrap_agrees_below_width', 'C13_screen_in_window_partial', 'C13_screen_in_window_counterexample',
     'C13_strsplit_single', 'C13_hexstr_width',
@@ -683,6 +684,79 @@ def gen_nested(rng):
     return ops
 
 
+TREE_NAMES = ['d', 'e', 'f', 'g', 'p', 'x', 'ls', '!x', '', 'tree']
+
+
+def rand_tree_script(rng, own):
+    """a handler that changes the node tree under the command line that called it (own = index of its own node)"""
+    acts = []
+    for _ in range(rng.choice([1, 1, 2, 2, 3, 4])):
+        r = rng.random()
+        if r < 0.4: acts.append('r:%d' % rng.choice([own, own, 0, 0, 1, 1, 2, 5, 6, 7, 9, 15, 40]))
+        elif r < 0.58: acts.append('u:%d:%s' % (rng.choice([0, 0, 1, 1, 2, own, 9]), hx(rng.choice(TREE_NAMES))))
+        elif r < 0.76: acts.append('m:%d:%d:%s' % (rng.choice([0, 0, 1, 2, 6, own, 9]), rng.choice([0, 1, 2, 5, 6, own, 3, 4, 9]), hx(rng.choice(TREE_NAMES))))
+        elif r < 0.9: acts.append('f:' + hx(rng.choice([b'ls\r\n', b'tree\r\n', b'cd ..\r\n', b'pwd\r\n', b'tree /\r\n', b'f\r\n', b'g\r\n', b'cd /d/e;tree ..\r\n', b'l'])))
+        elif r < 0.95: acts.append('s:' + hx('[h]'))
+        elif r < 0.975: acts.append('d')
+        else: acts.append('e')
+    return acts
+
+
+TREE_LINES = ['f;ls', 'f;tree', 'f;cd ..', 'f;cd x', 'f;pwd;ls /', 'f;f', 'f;f;f', '/f;tree /', 'f;help .', 'g;ls;tree', 'g;cd ..;tree', 'g;g', 'f;g;tree /',
+              'tree', 'ls', 'tree /', 'cd /', 'cd d/e', 'cd d', 'cd ..', 'pwd', '!!', '!0', 'ls ..', 'tree ..', 'help /', 'help f', 'help ..', 'cd /;tree', 'ls /d/e',
+              '../f;ls', '/d/g;tree', 'e/f;ls e', 'x;ls', 'x/p', 'p;f;p', 'history', 'f;exit', 'tree d', 'ls d/e/f', 'cd .;tree .']
+
+
+def gen_treeact(rng):
+    """command handlers that delete / mount / umount nodes (their own node, the directory they are in, the session's current
+    directory, the root) while the rest of the same input line is still to be executed; one or two sessions on the same tree"""
+    ops = ['mkdir', 'mkdir', 'mkfunc ' + ' '.join(rand_tree_script(rng, 3)), 'mkfunc ' + ' '.join(rand_tree_script(rng, 4)), 'mkfunc', 'mkdir',
+           'mount 0 1 ' + hx('d'), 'mount 1 2 ' + hx('e'), 'mount 0 3 ' + hx('f'), 'mount 1 4 ' + hx('g'), 'mount 2 3 ' + hx('f'),
+           'mount 0 5 ' + hx('p'), 'mount 2 5 ' + hx('p'), 'mount 1 3 ' + hx('f')]
+    if rng.random() < 0.3: ops.append('mount 2 1 ' + hx('x'))          # a cycle d/e/x -> d
+    if rng.random() < 0.15: ops.append('rmnode %d' % rng.choice([0, 1, 2, 3]))
+    if rng.random() < 0.2: ops.append('depth %d' % rng.choice([0, 1, 3]))
+    where = rng.choice(['d', 'd', 'd', 't', 'r', 's'])
+    send = {'d': lambda b: 'recv ' + hx(b), 't': lambda b: 'xrecv 4 ' + hx(b), 'r': lambda b: 'xrecv 6 ' + hx(b), 's': lambda b: 'srecv ' + hx(b)}[where]
+    ops.append({'d': 'open %d' % rng.choice([0, 1, 1]), 't': 'xconn 4', 'r': 'xconn 6', 's': 'sstart'}[where])
+    two = where == 'd' and rng.random() < 0.4
+    if two: ops += ['sel 1', 'open 1', 'recv ' + hx('cd d/e\r\n'), 'sel 0']
+    if rng.random() < 0.7: ops.append(send(('cd ' + rng.choice(['d', 'd/e', 'd/e', '/d/e/x', 'd/..'])).encode() + b'\r\n'))
+    for _ in range(rng.choice([2, 3, 5, 8])):
+        r = rng.random()
+        if r < 0.75:
+            line = rng.choice(TREE_LINES)
+            if rng.random() < 0.2: line += ';' + rng.choice(TREE_LINES)
+            ops.append(send(line.encode() + b'\r\n'))
+        elif r < 0.8 and two: ops += ['sel 1', 'recv ' + hx(rng.choice(TREE_LINES) + '\r\n'), 'sel 0']
+        elif r < 0.86: ops.append(rng.choice(['mount 0 3 ' + hx('f'), 'mount 0 1 ' + hx('d'), 'umount 0 ' + hx('d'), 'rmnode 3', 'rmnode 0', 'mkdir', 'mount 0 6 ' + hx('d')]))
+        elif r < 0.92: ops.append(send(b'\x1b[A\r\n'))
+        else: ops.append('pass')
+    if two: ops += ['sel 1', 'recv ' + hx('pwd;ls;tree;cd ..;tree\r\n')]
+    ops.append('pass')
+    return ops
+
+
+# handlers that change the node tree (minimal cases; also corpus 24-29)
+TREE_CASES = [
+    # patch 12: `tree` of the root directory after deleteNode(rootNode()) - as found: back() of the empty path
+    ['rmnode 0', 'open 1', 'recv ' + hx('tree\r\n'), 'recv ' + hx('ls;cd /;help /;pwd;tree /\r\n'), 'rmnode 0', 'mkdir', 'mount 0 1 ' + hx('d')],
+    # patch 13: a handler deletes its own node; the rest of its script and of the line go on
+    ['mkfunc r:1 s:' + hx('[still here]') + ' f:' + hx('pwd\r\n'), 'mount 0 1 ' + hx('f'), 'open 1', 'recv ' + hx('f;f;ls;tree;help f\r\n'), 'recv ' + hx('!!\r\n')],
+    # a handler deletes the session's current directory, then the root; the line goes on with cd / ls / tree / pwd
+    ['mkdir', 'mkfunc r:1 r:0', 'mount 0 1 ' + hx('d'), 'mount 1 2 ' + hx('f'), 'open 1', 'recv ' + hx('cd d\r\n'),
+     'recv ' + hx('f;ls;tree;cd ..;pwd;tree;ls /;cd /\r\n'), 'recv ' + hx('tree\r\n')],
+    # a handler umounts itself and mounts itself elsewhere under a built-in's name; a second session stands in the directory
+    ['mkdir', 'mkfunc u:1:' + hx('f') + ' m:0:2:' + hx('ls') + ' m:1:1:' + hx('loop'), 'mount 0 1 ' + hx('d'), 'mount 1 2 ' + hx('f'), 'open 1', 'sel 1', 'open 1',
+     'recv ' + hx('cd d\r\n'), 'sel 0', 'recv ' + hx('d/f;d/f;/ls;ls;tree\r\n'), 'sel 1', 'recv ' + hx('f;ls;tree;loop/loop/../..\r\n')],
+    # through the real telnet read path: the handler deletes its parent directory and ends the session; the stdio shell likewise
+    ['mkdir', 'mkfunc r:1 e', 'mount 0 1 ' + hx('d'), 'mount 1 2 ' + hx('f'), 'xconn 4', 'xsock 4 ' + hx('cd d\r\nf;tree;ls ..\r\n') + ' 3,2,a', 'xsock 4 - -', 'pass', 'pass'],
+    ['mkdir', 'mkfunc r:2 r:1 d', 'mount 0 1 ' + hx('d'), 'mount 1 2 ' + hx('f'), 'sstart', 'srecv ' + hx('d/f;tree\r\n'), 'pass'],
+    # nested: the handler feeds a line that calls the handler again (its node is gone by then), depth 3
+    ['depth 3', 'mkfunc f:' + hx('f\r\n') + ' r:1 f:' + hx('f;tree\r\n'), 'mount 0 1 ' + hx('f'), 'open 1', 'recv ' + hx('f;f\r\n')],
+]
+
+
 def gen(rng, tier):
     n = 120 if tier == 'quick' else 8000
     # a malformed op stream: both sides must answer bad-op
@@ -690,7 +764,7 @@ def gen(rng, tier):
            'tdisc x', 'rsend', 'winsz 70000 1', 'umount 3 61', 'recv', 'sel 4', 'sel 1', 'recv 00', 'xconn 3', 'xconn 7', 'xrecv 4 00',
            'xconn 4', 'xconn 4', 'xdisc 5', 'srecv 00', 'sstop', 'split', 'split 0', 'sstart', 'sstart', 'teardown', 'xrecv 4 00',
            'wfault 4 1', 'xclose 4', 'wfault 3 1', 'xconn 5', 'wfault 5 4', 'wfault 5 3', 'xclose 5', 'xclose 5', 'wfault 5 0', 'sstart', 'pass', 'xconn 5',
-           'depth 4', 'depth 1', 'mkfunc x', 'mkfunc f:0g', 'mkfunc e e e e e e e', 'mkfunc s:- e f:61', 'mkfunc d d', 'mkfunc dd',
+           'depth 4', 'depth 1', 'mkfunc x', 'mkfunc f:0g', 'mkfunc e e e e e e e', 'mkfunc s:- e f:61', 'mkfunc d d', 'mkfunc dd', 'mkfunc r:', 'mkfunc r:1:2', 'mkfunc m:0:1', 'mkfunc u:x:61', 'mkfunc m:0:1:0g', 'mkfunc r:1 u:0:61 m:0:1:61',
            'xsock 4 00 x', 'xsock 4 00 0', 'xsock 4 00 1025', 'xsock 3 00 -', 'xsock 5 00 1,,2', 'xsock 5 00 a,1', 'xsock 5 00 1,1,1,1,1,1,1,1,1',
            'xsock 5 00', 'xconnf 4 0', 'xconnf 4 5', 'xconnf 3 1', 'xconnf 5 2', 'xconnf 6 3', 'xsock 5 70770d0a 2,a', 'xsock 5 - z', 'xsock 5 00 -', 'pass',
            'ssplit - 00', 'ssplit 3b', 'ssplit 3b -', 'hexstr 00 5 0 -', 'hexstr 00 1 2 -', 'hexstr - 0 0 -', 'hexstr 00 65536 1 2c',
@@ -733,6 +807,10 @@ def gen(rng, tier):
     if tier != 'quick':
         # an edit line longer than 2^16 characters with cursor movement (cursor / sizes are size_t; the model is quadratic: thorough only)
         yield ['open 0', 'recv ' + hx(b'a' * 65600 + b'\x1b[1~b\x1b[4~c\x1b[D\x7f\r\n'), 'recv ' + hx('history\r\n')]
+    for c in TREE_CASES:
+        yield list(c)
+    for _ in range(n):
+        yield gen_treeact(rng)
     for _ in range(n):
         yield gen_shell(rng, rng.choice([2, 4, 8, 14]))
     for _ in range(n // 2):
@@ -776,7 +854,7 @@ def nontrivial(ops, model_lines):
         return 1
     if any(l.startswith(('P win', 'P setopt', 'P str')) for l in model_lines) and sum(1 for o in ops if o[1:5] == 'recv') >= 2:
         return 1
-    if tags & {'nested-feed', 'bang-recursive'}:
+    if tags & {'nested-feed', 'bang-recursive', 'h-rm', 'h-mount', 'h-umount'}:
         return 1
     if tags & {'tree-cycle', 'child-deleted', 'node-deleted', 'tree-node-deleted', 'cd-func', 'ls-func', 'tree-func', 'tree-depth2'}:
         return 1
@@ -796,7 +874,7 @@ RULE = ('op files from props/C13/plugin.py gen(): shell sessions over random nod
         'teardown without draining, teardown inside the loop pass that runs the exit tasks; telnet/raw-TCP input through the real socket read path with scripted readv answers (segment sizes, EAGAIN, EOF, ECONNRESET, EINTR, EIO), bytes left queued for the real epoll pass, accept failures; handlers deleting the session they run in; windows of 8-80 columns with lines longer than the window; history entries equal to the line typed, !n pushing itself out, nodes named like built-ins, the prompt pasted back; util::string::Split / RawDataToHexStr called directly at every alignment; slots re-opened after close/exit so that pooled '
         'session contexts and cabinet cells are reused while stale exit / disconnect tasks are queued; the kernel answering write() on a '
         'telnet/raw-TCP client socket with short counts, EAGAIN or EPIPE; clients closing their end unannounced with output pending), command handlers that act on their own session while the command executes (send, feed keys/lines incl. Enter, '
-        '!!, !n, exit into the same session to nesting depth 0-3, end the session; histories near the 20-line limit), directed built-in command cases over cyclic trees and deleted nodes, direct SplitCmdline calls; non-trivial = '
+        '!!, !n, exit into the same session to nesting depth 0-3, end the session; delete / mount / umount nodes - their own node, their directory, the current directory, the root - with the rest of the line (cd, ls, tree, the handler again) still to run; histories near the 20-line limit), directed built-in command cases over cyclic trees and deleted nodes, direct SplitCmdline calls; non-trivial = '
         'the model run takes a mid-line edit, a history walk, a history reference, a full-history store, tree/user/exit command, '
         'a cycle/deleted-node branch of a built-in, output from at least two sessions, a split with >= 2 arguments or a failure, '
         'or a telnet case delivers events over at least two segments; distinct = distinct op text')
@@ -827,10 +905,11 @@ TRUSTED = ['model lean/TboxModel/C13/Model.lean is hand-written from modules/ter
            '(op xclose) is found by the real read event of the next real loop pass (epoll)',
            'the reference terminal of C13_screen_matches_editor (Spec.lean Scr: one unbounded row, BS/CR/LF, ESC [ C, ESC [ D) is a model of a '
            'VT100-style terminal without wrapping; the theorem bounds the columns used so that the no-wrap assumption is a hypothesis on the window width']
-ASSUMPTIONS = ['the host program never deletes the root node',
-               'command handlers act on their own session only through Session::send/endSession, Terminal::onRecvString and '
-               'Terminal::deleteSession / Stdio::stop() (scripted in the harness), nest to a bounded depth, do not modify the node tree and do '
-               'not destroy the Terminal or a service object',
+ASSUMPTIONS = ['command handlers act on their own session through Session::send/endSession, Terminal::onRecvString and '
+               'Terminal::deleteSession / Stdio::stop(), and on the node tree through Terminal::deleteNode / mountNode / umountNode (any node: their '
+               'own, their directory, the session\'s current directory, the root) - all scripted in the harness; they nest to a bounded depth, create '
+               'no nodes and do not destroy the Terminal or a service object; a handler that deletes its own node relies on FuncNode::execute '
+               'running a copy of the callback (patch 13)',
                'isprint/islower behave as in the C locale (the scanner table is dumped under the harness locale)',
                'stdio segments are at most 512 bytes (one read per loop pass); pipe writes of the service never block',
                'a client that closed its end unannounced is noticed in the next loop pass (not while the stdio service is running in the harness: kept apart)',
@@ -847,8 +926,9 @@ LEVEL_TEXT = ('Lean 4 theorems over a hand-written model of the terminal shell (
               'contract) plus the key scanner table dumped from the running code and checked by decide; model tied to the code on every run by '
               'differential execution (ASan+UBSan) through recording connections, the real telnet/raw-TCP/stdio services and direct calls')
 LEVEL_NOTE = ('trusted: Lean kernel, hand-written model + differential tie (coverage bounded by the generator, measured in evidence); the model '
-              'describes the tree with patches/C13-01..11 applied - on a tree without 11 the check reports the crash of a command handler '
-              'through which Terminal::deleteSession is called on its own session (corpus 19, 20)')
+              'describes the tree with patches/C13-01..13 applied - on a tree without 11 the check reports the crash of a command handler '
+              'through which Terminal::deleteSession is called on its own session (corpus 19, 20); without 12 `tree` after deleteNode(rootNode()) '
+              '(corpus 24); without 13 a handler that deletes its own node (corpus 25)')
 TECHNIQUE = 'Lean 4 refinement/invariant proofs over an executable model + generated scanner table + model/implementation correspondence check'
 DESIGN_REF = 'DESIGN.md §6 C13'
 
